@@ -15,6 +15,8 @@ pub fn families_for(prop: &str) -> Vec<Family> {
         v.push(Family { name: "c01_part", cfg: c03_rand_cfg, run: c03_rand_run });
         v.push(Family { name: "c01_crash", cfg: c04_cfg, run: c04_run });
         v.push(Family { name: "c01_clock", cfg: c05_cfg, run: c05_run });
+        v.push(Family { name: "c01_hold", cfg: c01_hold_cfg, run: c08_manual_run });
+        v.push(Family { name: "c01_holdr", cfg: c01_hold_cfg, run: c08_rand_run });
         return v;
     }
     match prop {
@@ -404,10 +406,15 @@ fn c08_manual_run(case: &mut Case, rng: &mut Rng) {
         case.ctl(&format!("deliver h0 h1 {}", chosen[oi]));
     }
     case.ctl("links");
-    case.ctl("step");
-    tr.recv_all(case, 6);
-    case.ctl("step");
-    case.ctl("links");
+    // every third case: the release follows the manual deliveries at once, before any step or send has
+    // moved the hand-delivered messages out of the queue (held messages queued behind a delivered one
+    // must still be released)
+    if case.idx % 3 != 1 {
+        case.ctl("step");
+        tr.recv_all(case, 6);
+        case.ctl("step");
+        case.ctl("links");
+    }
     if rng.chance(1, 2) {
         case.ctl("release h0 h1");
     } else {
@@ -1258,6 +1265,25 @@ fn c09_run(case: &mut Case, rng: &mut Rng) {
         second.push(form);
     }
     case.ctl("step");
+    // the zero corner of "payload sizes": empty datagrams are datagrams.  A pair of probe sockets on
+    // port 9009: an empty datagram to a remote host (and over loopback) must arrive as (0, origin).
+    if rng.chance(1, 2) {
+        let lat = case.cfg.maxlat_ms / case.cfg.tick_ms + 2;
+        case.ctl("q h0 udp_bind s9 any:9009");
+        case.ctl("q h1 udp_bind s9 any:9009");
+        case.ctl("step");
+        case.ctl("q h0 udp_send s9 h1:9009 -");
+        case.ctl("q h1 udp_send s9 lo:9009 -");
+        case.ctl(&format!("q h0 udp_send s9 h1:9009 {}", hex(&[0x7f, 0x01])));
+        case.ctl("step"); // the sends happen in this step
+        for _ in 0..lat + 1 {
+            case.ctl("step");
+        }
+        for _ in 0..4 {
+            case.ctl("q h1 udp_tryrecv s9 8");
+        }
+        case.ctl("step");
+    }
     let mut next_id: u32 = 1;
     let mut alive0 = vec![true; hosts];
     let rounds = rng.range(10, 50);
@@ -1618,6 +1644,22 @@ fn c04_run(case: &mut Case, rng: &mut Rng) {
         case.ctl("q h0 count");
         case.ctl("step");
     }
+    if hosts > 2 && !case.cfg.desc {
+        // a group crash (regex selector) in which an earlier selected host is already down:
+        // every selected host must be down afterwards
+        case.ctl("q h2 spawn_ticker");
+        case.ctl("step");
+        case.ctl("crash h0");
+        case.ctl("step");
+        case.ctl("crash_set h0,h2");
+        case.ctl("step");
+        case.ctl("q h1 countof h2");
+        case.ctl("step");
+        case.ctl("bounce h2");
+        case.ctl("bounce h0");
+        case.ctl("q h2 count");
+        case.ctl("step");
+    }
     case.ctl("mark done");
 }
 
@@ -1640,6 +1682,8 @@ fn c01_mix_cfg(rng: &mut Rng) -> CaseCfg { let c = mix_cfg(rng); knobs(c, rng) }
 fn c01_udp_cfg(rng: &mut Rng) -> CaseCfg { let c = c09_cfg(rng); knobs(c, rng) }
 fn c01_tcp_cfg(rng: &mut Rng) -> CaseCfg { let c = c02_cfg(rng); knobs(c, rng) }
 fn c01_conn_cfg(rng: &mut Rng) -> CaseCfg { let c = c12_cfg(rng); knobs(c, rng) }
+
+fn c01_hold_cfg(rng: &mut Rng) -> CaseCfg { let c = c08_cfg(rng); knobs(c, rng) }
 
 fn c01_fs_cfg(rng: &mut Rng) -> CaseCfg {
     let c = CaseCfg { hosts: rng.range(1, 3) as usize, rng_seed: rng.next(), tick_ms: *rng.pick(&[1u64, 2, 5]), ..CaseCfg::default() };
